@@ -60,9 +60,14 @@ func checkC06(c *Ctx) {
 			bk := d.Key(complitField(e.Alloc, "Batch"))
 			facts := d.Facts
 			okBatch := commitBlk != "" && bk == "(*hs.Block).Commands("+commitBlk+")"
-			okOrder := errNilOf(facts, func(k string) bool {
+			parentFirst := errNilOf(facts, func(k string) bool {
 				return strings.HasPrefix(k, kCommitInner) && strings.Contains(k, kBlockParent+commitBlk+")")
-			}) &&
+			})
+			if !parentFirst && commitEmit != nil && d.In == commitInner && commitEmit.Parent() == commitInner {
+				// the iterative form of commitInner (see C01.3): oldest collected ancestor first
+				parentFirst, _ = c01IterativeForm(fl, complitField(ceSites[commitEmit].Alloc, "Block"), commitEmit)
+			}
+			okOrder := parentFirst &&
 				commitEmit != nil && commitEmit.Parent() == e.Instr.Parent() && precedes(commitEmit, e.Instr)
 			c.Check(okBatch && okOrder, "C06.1", "commitInner: execute the committed block's commands, parent first", p.InstrPos(e.Instr),
 				"ExecuteEvent{Batch: block.Commands()} follows the CommitEvent of the same block and the successful recursive commit of its parent",
